@@ -620,8 +620,11 @@ def c07_check_program(steps: list, sel: str, seed: int) -> dict:
     fails: list = []
     stats = {"valued": 0, "compared": 0, "derived_types": 0, "multi": 0}
     r = run_program(steps, sel)
+    infra = None
     if r["raised"]:
-        return {"failures": [], "stats": stats, "infra": f"program raised {r['raised']}"}
+        # judge the Vars constructed before the raising step all the same (a wrong propagated constant
+        # typically shows up *before* the operator that chokes on it)
+        infra = f"program raised {r['raised']}"
     vars_ = r["vars"]
     valued = [(i, v) for i, v in enumerate(vars_) if L.has_value(v)]
     stats["valued"] = len(valued)
@@ -639,7 +642,7 @@ def c07_check_program(steps: list, sel: str, seed: int) -> dict:
     args = {f"a{i}": v for i, v in enumerate(vars_) if _is_arg(v)}
     exposed = [(i, v) for i, v in enumerate(vars_) if _exposable(v)]
     if not exposed:
-        return {"failures": fails, "stats": stats}
+        return {"failures": fails, "stats": stats, "infra": infra}
     try:
         model = spox.build(args, {f"v{i}": v for i, v in exposed})
     except Exception as e:  # noqa: BLE001
@@ -667,7 +670,7 @@ def c07_check_program(steps: list, sel: str, seed: int) -> dict:
                 if why:
                     fails.append((f"type-unsound:{opn}:{why.split(':')[0]}",
                                   f"[{sel}] var {i} of {opn} reported {v.type} but the built model gives {o.dtype}{list(o.shape)}"))
-    return {"failures": fails, "stats": stats}
+    return {"failures": fails, "stats": stats, "infra": infra}
 
 
 FAULT_KINDS = ["raise", "unknown-name", "list2", "none", "scalar", "wrongdtype", "wrongshape", "truncated",
